@@ -129,6 +129,15 @@ class RefV(V):
         return 'RefV(%s,%s,%s)' % (self.id, self.kind, self.cls)
 
 
+class RecProto(V):
+    """an element of an abstract list of records: {field: (present z3 Bool, value)}; materialised into a
+    heap record when it is bound to a name or subscripted"""
+    __slots__ = ('fields',)
+
+    def __init__(self, fields):
+        self.fields = fields
+
+
 class UnionV(V):
     """A value that is one of several alternatives, each under a guard (guards are exhaustive and
     mutually exclusive under the path condition).  Operations that need a definite tag fork."""
